@@ -162,7 +162,8 @@ func runHarness(l *loaded, spec HarnessSpec, trace bool, dumpDir string) *Harnes
 	// the assumptions emitted before the obligation whose guard does not contradict it, then the obligation.
 	kinds := strings.Split(spec.Solver, ",")
 	if spec.Solver == "" {
-		kinds = []string{"z3", "cvc5", "z3-new"}
+		// fallback chain: a quick z3 attempt first, then the other back-ends with the full budget
+		kinds = []string{"z3:quick", "cvc5", "z3-new", "z3"}
 	}
 	type inst struct {
 		kind string
@@ -179,7 +180,15 @@ func runHarness(l *loaded, spec HarnessSpec, trace bool, dumpDir string) *Harnes
 		}
 	}
 	start := func(i *inst) error {
-		s, err := newSolver(i.kind, to)
+		kind, tmo := i.kind, to
+		if strings.HasSuffix(kind, ":quick") {
+			kind = strings.TrimSuffix(kind, ":quick")
+			tmo = to / 8
+			if tmo < 1500 {
+				tmo = 1500
+			}
+		}
+		s, err := newSolver(kind, tmo)
 		if err != nil {
 			return err
 		}
@@ -258,7 +267,7 @@ func runHarness(l *loaded, spec HarnessSpec, trace bool, dumpDir string) *Harnes
 				continue
 			}
 			ob.Result = r.String()
-			ob.Solver = i.kind
+			ob.Solver = strings.TrimSuffix(i.kind, ":quick")
 			if r == solve.Sat {
 				ob.Model = map[string]string{}
 				for k, v := range vals {
